@@ -223,6 +223,15 @@ func c12R4(c *Ctx, rule string) {
 				}
 			}
 		}
+		if bad == "" && dur != nil && rnd != nil {
+			seen := map[int64]bool{}
+			for x := int64(0); x <= 40; x++ {
+				t, _ := f.Eval(arg, map[ssa.Value]int64{dur: 8, rnd: x})
+				seen[t] = true
+			}
+			spread := len(seen)
+			c.Check(rule, "randomTimeout:spread", c.P.InstrPos(ret), "the timer really is randomised: for d=8 the random value reaches every point of [8,16) (colliding candidates would otherwise collide for ever)", spread == 8, fmt.Sprintf("%d distinct timer values for d=8", spread), spread)
+		}
 		c.RequireAt(r, rule, "randomTimeout:range", ret, "for d in 1..8 and any random value 0..20 the timer is in [d, 2d); timer = "+c.P.D(arg), func(vw engine.View) bool { return bad == "" && vw.F("zero") })
 		if bad != "" {
 			c.Bad(rule, "randomTimeout:range-fold", c.P.InstrPos(ret), "timer in [d,2d)", bad)
